@@ -69,6 +69,9 @@ def benign_edits(repo):
     sub(j("src/awkward/partition.py"), r"( +)outparts\.append\(inparts\[i\]\[\(headparts\[i\],\) \+ tail\]\)\n +outoffsets\.append\(outoffsets\[-1\] \+ len\(outparts\[-1\]\)\)",
         r"\1piece = inparts[i][(headparts[i],) + tail]\n\1outparts.append(piece)\n\1outoffsets.append(outoffsets[-1] + len(piece))")
     sub(j("src/awkward/operations/describe.py"), r"        out = array\.validityerror\(\)\n        if out is not None and exception:", "        out = array.validityerror()\n        if exception and out is not None:")
+    # 4c. twelfth batch: the size of a raw buffer named before the allocation
+    sub(j("src/libawkward/array/NumpyArray.cpp"), r"      std::shared_ptr<void> ptr\(\n        kernel::malloc<void>\(ptr_lib_, bytepos\.length\(\)\*strides_\[0\]\)\);",
+        "      int64_t nbytes = bytepos.length()*strides_[0];\n      std::shared_ptr<void> ptr(\n        kernel::malloc<void>(ptr_lib_, nbytes));")
     # 5. spec and kernel changed together (contract moves consistently): rename a local in both
     sub(j("kernel-specification.yml"), r"def awkward_ListArray_min_range\(tomin, fromstarts, fromstops, lenstarts\):\n          shorter", "def awkward_ListArray_min_range(tomin, fromstarts, fromstops, lenstarts):\n          smallest", count=1) if False else None
 
